@@ -183,6 +183,40 @@ var skipChunkShapes = []struct {
 	{"fit+err", []int{-1}, false, errInjected},
 	{"2byte+unexpectedeof", []int{2}, true, io.ErrUnexpectedEOF},
 	{"3byte+wrapped-protocol-exception", []int{3}, false, errWrappedPE},
+	{"5byte+typed-source-error", []int{5}, false, errTypedSrc},
+}
+
+// a source error of a transport layer's own exception type: it exposes TypeId() like the library's exceptions and
+// unwraps to the real cause; the stream readers must wrap THIS value, not rebuild something that merely resembles it
+type typedSrcErr struct{ cause error }
+
+func (e *typedSrcErr) Error() string { return "transport: frame read timed out" }
+func (e *typedSrcErr) TypeId() int32 { return 3 }
+func (e *typedSrcErr) Unwrap() error { return e.cause }
+
+var errTypedCause = errors.New("verif: i/o timeout")
+var errTypedSrc = &typedSrcErr{cause: errTypedCause}
+
+// wrapsSource: "wrap that reader's error": errors.Is finds it, the very value is on the Unwrap chain, and so is
+// whatever it wraps itself
+func wrapsSource(err, src error) bool {
+	if err == nil || src == nil || !errors.Is(err, src) {
+		return false
+	}
+	onChain := false
+	for e := err; e != nil; e = errors.Unwrap(e) {
+		if e == src {
+			onChain = true
+			break
+		}
+	}
+	if !onChain {
+		return false
+	}
+	if c := errors.Unwrap(src); c != nil && !errors.Is(err, c) {
+		return false
+	}
+	return true
 }
 
 // a source error that itself wraps a protocol exception (a framing layer below reporting its own decode failure):
@@ -240,7 +274,7 @@ func runSkippers(b []byte, t int8, full bool, shapes int) []skipRes {
 				br := thrift.NewBufferReader(rd)
 				err := br.Skip(t)
 				r.Ok, r.N, r.Used, r.Tid = err == nil, int(br.Readn()), rd.ReadLen(), tidOf(err)
-				r.SrcErr = errors.Is(err, srcEnd(src))
+				r.SrcErr = wrapsSource(err, srcEnd(src))
 				r.Giant = rd.giant
 				br.Recycle()
 			})
@@ -255,7 +289,7 @@ func runSkippers(b []byte, t int8, full bool, shapes int) []skipRes {
 				buf, err := d.Next(t)
 				r.Ok, r.N, r.Used, r.Tid = err == nil, len(buf), rd.ReadLen(), tidOf(err)
 				r.Ret = len(buf) <= len(b) && bytes.Equal(buf, b[:len(buf)])
-				r.SrcErr = errors.Is(err, srcEnd(src))
+				r.SrcErr = wrapsSource(err, srcEnd(src))
 				r.Giant = rd.giant
 				d.Release()
 			})
@@ -282,7 +316,7 @@ func runSkippers(b []byte, t int8, full bool, shapes int) []skipRes {
 			buf, err := d.Next(t)
 			r.Ok, r.N, r.Used, r.Tid = err == nil, len(buf), src.pos, tidOf(err)
 			r.Ret = len(buf) <= len(b) && bytes.Equal(buf, b[:len(buf)])
-			r.SrcErr = errors.Is(err, src.endErr())
+			r.SrcErr = wrapsSource(err, src.endErr())
 			d.Release()
 		})
 		out = append(out, r)
